@@ -326,8 +326,8 @@ func genC14Case(t *rapid.T) c14Case {
 		c.Mode = "dead"
 		c.Direction = rapid.SampledFrom([]string{"both", "both", "c2s", "s2c"}).Draw(t, "direction")
 		c.AtMs = rapid.IntRange(0, 2*c.IntervalMs+c.TimeoutMs).Draw(t, "at")
-		if c.Transport == "upgrade" {
-			c.AtMs = rapid.IntRange(0, 3).Draw(t, "atUpgrade") // while the upgrade is in progress
+		if c.Transport == "upgrade" && rapid.Bool().Draw(t, "duringUpgrade") {
+			c.AtMs = rapid.IntRange(0, 3).Draw(t, "atUpgrade") // while the upgrade is in progress (otherwise: on the upgraded connection)
 		} else if rapid.Bool().Draw(t, "nearPing") {
 			c.AtMs = c.IntervalMs*rapid.IntRange(1, 2).Draw(t, "k") + rapid.IntRange(-3, 3).Draw(t, "eps")
 		}
